@@ -542,7 +542,14 @@ class _ChainedRunnerIterator(Iterable[_ValueT]):
     if isinstance(state, _IteratorState):
       assert len(self._iterators) == 1, f'{len(self._iterators)=}'
       state = {it.name: state for it in self._iterators}
-    iterators = [it.from_state(state[it.name]) for it in self._iterators]
+    # The state of each iterator embeds the states of its upstream iterators,
+    # recovering the last one recovers the whole chain. The recovered upstream
+    # iterators have to be the ones feeding their consumers so that their
+    # aggregation states keep being updated.
+    last = self._iterators[-1]
+    iterators = [last.from_state(state[last.name])]
+    for _ in self._iterators[1:]:
+      iterators.insert(0, iterators[0]._data_sources[0])  # pylint: disable=protected-access
     return _ChainedRunnerIterator(
         iterators,
         with_result=self._with_result,
